@@ -30,7 +30,12 @@ def bound_powers(s):
     product of all power magnitudes <= 100; exponent notation of <= 3 digits; round's digits argument <= 2 digits."""
     out = []
     i = 0
-    budget = 600
+    # The budget for the product of the power magnitudes shrinks with the largest exponent-notation literal in the input, so that no
+    # input denotes more than ~40 000 digits: beyond that the tool's repeated multiplication is merely slow in the debug build
+    # (`228E+505 kkatal ^ 7 ^ 70` = 10^248 000 took > 60 s twice and was reported as non-termination - a false alarm, see DESIGN 6.3)
+    emax = max([min(999, int(x)) for x in re.findall(r"[eE][+-]?([0-9]{1,3})", s)] + [0])
+    longest = max([len(x) for x in re.findall(r"[0-9]+", s)] + [1])
+    budget = max(2, min(600, 40000 // (emax + longest + 1)))
     n = len(s)
     while i < n:
         c = s[i]
@@ -401,7 +406,10 @@ def shard(p):
                                 d.restart()
                                 verdict = "died:%s" % (ex2,)
                         if verdict == "timeout":
-                            acc.violate("c11:does-not-terminate", "input %r did not finish within 60 s, twice, alone on an idle driver (%s build)" % (s, kind), {"input": s, "build": kind, "family": f})
+                            if still_running_after_long_budget(p["bins"], s):
+                                acc.violate("c11:does-not-terminate", "input %r did not finish within 60 s, twice, alone on an idle driver (%s build), nor within 600 s on the release build" % (s, kind), {"input": s, "build": kind, "family": f})
+                            else:
+                                acc.inconc("input %r was slow (> 60 s twice on the %s build) but finished on the release build: no verdict" % (s[:200], kind))
                             reps.append(None)
                         elif isinstance(verdict, str):
                             acc.violate("c11:process-killed", "input %r kills the process (%s build): %s" % (s, kind, verdict), {"input": s, "build": kind, "family": f})
@@ -445,6 +453,21 @@ def cli_sample(acc, b, inputs, valgrind_n):
     finally:
         shutil.rmtree(home, ignore_errors=True)
 
+def still_running_after_long_budget(bins, s):
+    """Third opinion before a wall-clock verdict: the same input alone on the RELEASE build with a ten-minute budget. Only an input that
+    does not finish there either is reported as non-termination; one that does finish was merely slow (a loaded machine, a debug-build
+    multiplication of a very long number) and carries no verdict."""
+    d = Driver(bins["rel"])
+    try:
+        d.call({"op": "query", "q": s}, timeout=600)
+        return False
+    except DriverTimeout:
+        return True
+    except DriverDied:
+        return False
+    finally:
+        d.close(kill=True)
+
 def run_alone(acc, bins, s, family):
     """One input, alone, on fresh drivers of both build kinds, with the termination procedure of the property."""
     for kind in ("dbg", "rel"):
@@ -464,7 +487,10 @@ def run_alone(acc, bins, s, family):
             acc.evaluations += 1
             acc.count("family_" + family)
             if verdict == "timeout":
-                acc.violate("c11:does-not-terminate", "input %r did not finish within 60 s, twice, alone on an idle driver (%s build)" % (s, kind), {"input": s, "build": kind, "family": family})
+                if still_running_after_long_budget(bins, s):
+                    acc.violate("c11:does-not-terminate", "input %r did not finish within 60 s, twice, alone on an idle driver (%s build), nor within 600 s on the release build" % (s, kind), {"input": s, "build": kind, "family": family})
+                else:
+                    acc.inconc("input %r was slow (> 60 s twice on the %s build) but finished on the release build: no verdict" % (s[:200], kind))
             elif isinstance(verdict, str):
                 acc.violate("c11:process-killed", "input %r kills the process (%s build): %s" % (s, kind, verdict), {"input": s, "build": kind, "family": family})
             else:
